@@ -178,11 +178,17 @@ int main(void) {
 	e = mkbinaryexpr(&loc, TOP, l, r);
 	struct type *want_type = ctype[WANT];     /* computed by the generator from C11 6.3.1.1 / 6.3.1.8 (LP64), see props/exprlib.py */
 #if OPK <= 6 || (OPK >= 13 && OPK <= 15)    /* CBMC types comparison/logical results as _Bool internally: no cross-check there */
-	CHECK(sizeof(ref) == ctype[WANT]->size && ((__typeof__(ref))-1 < 0) == (ctype[WANT]->prop & PROPFLOAT ? true : ctype[WANT]->u.basic.issigned), "generator's expected type agrees with CBMC's C front end in size and signedness");
+	CHECK(sizeof(ref) == ctype[WANT]->size && ((__typeof__(ref))-1 < 0) == (ctype[WANT]->prop & PROPFLOAT ? true : UBASIC(ctype[WANT]).issigned), "generator's expected type agrees with CBMC's C front end in size and signedness");
 #endif
 #endif
-#if !defined(ONLY_RT) && !defined(ONLY_FOLD)
-	CHECK(e->type == want_type, "expression has the type C11 assigns it (usual arithmetic conversions / promotions)");
+	/* the types chosen by the front end are asserted and then pinned: symex keeps the result of typecommonreal() as an unsimplified
+	 * conditional pointer, which otherwise turns the lowering and its interpretation semi-symbolic (minutes instead of seconds) */
+	if (e->type != want_type) { CHECK(0, "expression has the type C11 assigns it (usual arithmetic conversions / promotions)"); PATH_END(); }
+	e->type = want_type;
+#ifndef CASTMODE
+	{ struct expr *cl = e->u.binary.l, *cr = e->u.binary.r;
+	  if (cl->type != ctype[LCONV] || cr->type != ctype[RCONV]) { CHECK(0, "operands are converted to the types C11 prescribes for this operator"); PATH_END(); }
+	  cl->type = ctype[LCONV]; cr->type = ctype[RCONV]; }
 #endif
 #ifdef ONLY_TYPE
 	WITNESS_POINT();
